@@ -270,6 +270,7 @@ fn main() {
                 bourse_verif_harness::PRICE_OFFSET.store(k, std::sync::atomic::Ordering::Relaxed);
                 i += 1
             }
+            "--vol-scale" => { bourse_verif_harness::VOL_SCALE.store(args[i + 1].parse().unwrap(), std::sync::atomic::Ordering::Relaxed); i += 1 }
             "--trunc-every" => { cfg.trunc_every = args[i + 1].parse().unwrap(); i += 1 }
             "--case" => { single = Some(args[i + 1].clone()); i += 1 }
             a => { eprintln!("unknown argument {}", a); std::process::exit(2) }
